@@ -1,4 +1,5 @@
 import Gmx.Model.Access
+import Gmx.Gen.StoreBinding
 import Gmx.Driver.Util
 -- ENGINE c19 C19.c19Engine stateless
 /-! driver engine `c19` — does a caller holding exactly one role (or none) pass the generated
@@ -28,6 +29,17 @@ def c19Engine (args : List String) : String :=
     match IxId.all.find? (fun i => i.name == prog ++ "::" ++ ix) with
     | none => "noix"
     | some i => if ownerCallPasses i (who == "owner") then "passed" else "denied clean"
+  | ["fcall", prog, ix, acct] =>
+    -- the right role holder presents `acct` belonging to ANOTHER store
+    match IxId.all.find? (fun i => i.name == prog ++ "::" ++ ix) with
+    | none => "noix"
+    | some i =>
+      match (Gmx.Gen.StoreBinding.stateAccounts i).find? (fun a => a.name == acct) with
+      | none => "noacct"
+      | some a => match a.binding with
+        | .unbound => "accepted"
+        | .noStore => "accepted"
+        | _ => "rejected clean"
   | ["count"] => s!"ok {IxId.all.length}"
   | _ => "bad-op"
 
